@@ -494,7 +494,10 @@ func lenTextAlphabet(f *rm.Field, o Opts, leaf int) []member {
 				}
 			}
 		}
-		ls = append(ls, 100, 600, 1000, 4096)
+		ls = append(ls, 100, 600, 1000)
+		for _, c := range []int{64, 2048, 4096, 8192, 16384, 32768} { // every power of two up to the 16-bit limit, +-1
+			ls = append(ls, c-1, c, c+1)
+		}
 		for _, l := range ls {
 			if uint64(l) <= max {
 				out = append(out, member{desc: fmt.Sprintf("len %d", l), v: rm.Text(rolling(leaf, l)), heavy: true})
